@@ -230,3 +230,14 @@ func (s *Store) SaveOAuth2(ctx context.Context, user authboss.OAuth2User) error 
 	s.Saves++
 	return nil
 }
+
+// PIDs lists the identifiers of all stored accounts (harness inspection).
+func (s *Store) PIDs() []string {
+	var out []string
+	for _, u := range s.Users {
+		if u != nil {
+			out = append(out, u.B().PID)
+		}
+	}
+	return out
+}
